@@ -8,7 +8,7 @@
     collectors, any interleaving of the threads' operations, any default collector at any point (SetDefault / CloseScope
     are ordinary operations of the program, including "no collector"). *)
 From Coq Require Import List NArith Bool.
-From TV Require Import SpanApi.Model SpanApi.Spec SpanApi.Proofs SpanApi.ShapeSyntax SpanApi.Shapes SpanApi.ShapesProofs.
+From TV Require Import SpanApi.Model SpanApi.Spec SpanApi.Proofs SpanApi.ShapeSyntax SpanApi.Shapes SpanApi.ShapesProofs SpanApi.WireProofs.
 From TVGen Require Gen_span.
 Import ListNotations.
 Local Open Scope N_scope.
@@ -158,6 +158,30 @@ Theorem C03_nonvacuous_ext :
 Proof. exact (conj demo2_wf demo2_trace). Qed.
 Print Assumptions C03_nonvacuous_ext.
 
+(** * Collectors whose clone_span returns an alias
+
+    `Collect::clone_span` returns the id the new handle must use; it may differ from its argument ("if `id` is itself a
+    pointer of some kind this can be used as a hook to clone the pointer").  In the model collectors 3, 4, ... hand out a
+    fresh id per handle.  [trace p], about which every theorem above speaks, names a span by the id new_span returned,
+    whichever alias a call carried; [wire p] is the same sequence of calls with the ids the collector really sees (the
+    id of the handle the call goes through = what Span::id() returns, and the call's second id).  The counting theorems
+    are therefore statements per SPAN; this one adds that every call carries an id which that collector itself issued
+    earlier for that span (as new_span's result, or as the result of a clone_span about it). *)
+Theorem C03_wire_ids : forall p, WFprog p ->
+  map fst (wire p) = trace p /\
+  forall l1 c t k x l2, wire p = l1 ++ (ECall c t k, x) :: l2 -> tag_of k <> TNew ->
+    exists ex, In ex l1 /\ issues c (subject k) (fst x) ex.
+Proof. exact wire_ids. Qed.
+Print Assumptions C03_wire_ids.
+
+Theorem C03_nonvacuous_alias :
+  WFprog p_demo3 /\
+  map enc_entry (wire p_demo3) =
+    [(3, 0, 1, 1, 0, 0); (3, 0, 2, 1, 2, 0); (3, 0, 3, 1, 0, 0); (3, 0, 4, 2, 0, 0); (3, 0, 5, 2, 0, 0); (3, 0, 3, 2, 0, 0)] /\
+  cnt TClose (1, 3) (trace p_demo3) = 2%nat /\ cnt TClone (1, 3) (trace p_demo3) = 1%nat.
+Proof. exact demo3. Qed.
+Print Assumptions C03_nonvacuous_alias.
+
 (** * The tie to the source: collector-call shapes
 
     translators/span_shapes.py reads, on every run, one row per method of tracing/src/span.rs, tracing/src/instrument.rs,
@@ -176,15 +200,24 @@ Theorem C03_compile_from_shapes : forall o t a ms, compile o t a = Some ms -> em
 Proof. exact compile_from_shapes. Qed.
 Print Assumptions C03_compile_from_shapes.
 
+(** Between a handle and its collector there may be a Dispatch and a Box<C> / Arc<C> (a collector chosen at run time or
+    shared): in the table every one of them hands new_span, record, record_follows_from, enter, exit, clone_span, try_close
+    and current_span on to the same method of the collector (none is left to a provided default of the trait), which is why
+    the model has no wrapper. *)
+Theorem C03_forwarding_transparent :
+  forall w m, In w wrappers -> In m forwarded -> lookup_row model_shapes (fwd_key w m) = Some (fwd_row m).
+Proof. exact forwarding_transparent. Qed.
+Print Assumptions C03_forwarding_transparent.
+
 (** The own-collector micro-actions mean: that call, at the Dispatch stored in the handle, about the handle's own id, and
     nothing if the handle has no inner (the `if let Some(inner) = self.inner` of every row). *)
 Theorem C03_own_calls : forall d,
-  (forall e, md (MEnterE e) d = own_sem KEnter (val_of d (e_holder e)) (e_tid e) None d) /\
-  (forall e, md (MExitE e) d = own_sem KExit (val_of d (e_holder e)) (e_tid e) None d) /\
-  (forall n t, md (MRelease n t) d = own_sem KTryClose (val_of d n) t None d) /\
-  (forall r t, md (MRecord r t) d = own_sem KRecord (val_of d r) t None d) /\
-  (forall r r' t, md (MFollows r r' t) d = own_sem KFollows (val_of d r) t (id_of_val (val_of d r')) d) /\
-  (forall r n t, md (MCloneTo r n t) d = set_val (own_sem KCloneSpan (val_of d r) t None d) n (val_of d r)).
+  (forall e, md0 (MEnterE e) d = own_sem KEnter (val_of d (e_holder e)) (e_tid e) None d) /\
+  (forall e, md0 (MExitE e) d = own_sem KExit (val_of d (e_holder e)) (e_tid e) None d) /\
+  (forall n t, md0 (MRelease n t) d = own_sem KTryClose (val_of d n) t None d) /\
+  (forall r t, md0 (MRecord r t) d = own_sem KRecord (val_of d r) t None d) /\
+  (forall r r' t, md0 (MFollows r r' t) d = own_sem KFollows (val_of d r) t (id_of_val (val_of d r')) d) /\
+  (forall r n t, md0 (MCloneTo r n t) d = set_val (own_sem KCloneSpan (val_of d r) t None d) n (val_of d r)).
 Proof. exact md_own. Qed.
 Print Assumptions C03_own_calls.
 
@@ -192,10 +225,10 @@ Print Assumptions C03_own_calls.
     and Span::or_current compute on the thread's default dispatcher ([ctor]): new_span (or nothing under no collector),
     current_span + clone_span, the disabled branch, the handle remembering that dispatcher. *)
 Theorem C03_constructors_from_shapes : forall n t d,
-  (forall h p, md (MNewSpan n t h p) d =
+  (forall h p, md0 (MNewSpan n t h p) d =
                ctor_run model_shapes (new_entry h p) d n t (new_parg d p) (new_enabled d t h) SNone) /\
-  md (MCurrentTo n t) d = ctor_run model_shapes row_current d n t None true SNone /\
-  md (MOrCurrent n t) d = ctor_run model_shapes row_or_current d n t None true (val_of d n).
+  md0 (MCurrentTo n t) d = ctor_run model_shapes row_current d n t None true SNone /\
+  md0 (MOrCurrent n t) d = ctor_run model_shapes row_or_current d n t None true (val_of d n).
 Proof.
   intros n t d. exact (conj (fun h p => md_new_from_shapes n t h p d)
                             (conj (md_current_from_shapes n t d) (md_or_current_from_shapes n t d))).
